@@ -97,6 +97,10 @@ package app
 // plain file again, not from the range limiter of the request it has just served.
 //@ extern os.File.Seek(f, offset, whence) n, err
 //@ extern os.File.Close(f) err
+//@ extern os.File.Name(f) r
+//@ extern os.Open(name) f, err
+//@   allocates
+//@   ensures err == nil ==> f != nil
 //@ extern sync.Mutex.Lock(m)
 //@ extern sync.Mutex.Unlock(m)
 //@ func bigFileReader.Close(r) err
@@ -145,3 +149,27 @@ package app
 //@   ghostset after ResponseHeader.SetContentRange: rgApplied = true
 //@   assert before SetBodyStream: rgApplied && 0 <= rgStart && rgStart <= rgEnd && rgEnd < 4611686018427387904 ==> arg2 == rgEnd - rgStart + 1
 //@   assert before ResponseHeader.SetContentLength: rgApplied && 0 <= rgStart && rgStart <= rgEnd && rgEnd < 4611686018427387904 ==> arg1 == rgEnd - rgStart + 1
+
+// C08 (which reader serves a cached entry): a generated directory listing has no backing file and is always
+// served by the small-file reader; the big-file reader is chosen only for file-backed entries, so its
+// "file must be non-nil" panic is unreachable. ffInv: an entry without listing bytes has its file.
+//@ macro ffInv(ff) = len(ff.dirIndex) == 0 ==> ff.f != nil
+//@ func fsFile.isBig(ff) r
+//@   props C08
+//@   requires ff != nil
+//@   top-ensures r == (ff.contentLength > 8192 && len(ff.dirIndex) == 0)
+//@ func fsFile.bigFileReader(ff) r, err
+//@   props C08
+//@   requires ff != nil && ff.f != nil
+//@   modifies *
+//@ func fsFile.smallFileReader(ff) r
+//@   modifies *
+//@   panics
+//@ func fsFile.decReadersCount(ff)
+//@   modifies *
+//@   panics
+//@ func fsFile.NewReader(ff) r, err
+//@   props C08
+//@   requires ff != nil && ffInv(ff)
+//@   modifies *
+
